@@ -47,6 +47,31 @@ fn mk_operand(base: u64, p: u32, ksel: u16, pat: u8, seed: u64, neg: bool, exp: 
     fl_from(&n, exp)
 }
 
+/// exp of arguments between 2^13 and the point where the recorded finding
+/// C11/exp-large-argument-guard-digits begins (integer digits of |x| >= series + pow guard digits − 2),
+/// capped where the result's exponent would leave the isize range: the reduction x = s·ln B + r has
+/// to absorb log_B|s| digits of cancellation there
+fn exp_large_case(base: u64) -> impl Strategy<Value = Case> {
+    (precision(40), (any::<u16>(), 0u8..9, any::<u64>(), any::<bool>()), any::<u16>()).prop_map(move |(p, (ka, pa, sa, na), tsel)| {
+        let lb = (base as f64).log2();
+        let tmax = (13.0 / lb).floor() as i64 - 1;
+        let series_guard = ((p as f64).log2() / lb).floor() as i64 + 2;
+        let bit_len = 64 - (p as u64).leading_zeros() as i64;
+        let pow_guard = (bit_len as f64 * lb * 2.0).floor() as i64;
+        // dx = top + 1 integer digits; the finding starts at dx = series_guard + pow_guard - 2
+        let hi = (series_guard + pow_guard - 2).min((61.0 / lb).floor() as i64) - 1;
+        let lo = tmax + 1;
+        let top = if hi <= lo { lo } else { lo + (tsel as i64 * (hi - lo + 1) >> 16) };
+        let mut x = mk_operand(base, p, ka, pa, sa, na, 0).normalised(base);
+        if x.sig.is_zero() {
+            x = fl_from(&BigInt::one(), 0);
+        }
+        let dd = x.digits(base) as i64;
+        x.exp = top - dd + 1;
+        Case { p, f: 0, x, y: fl_from(&BigInt::one(), 0), n: 0 }
+    })
+}
+
 fn case_strategy(base: u64, max_p: u32) -> impl Strategy<Value = Case> {
     case_strategy_with(base, precision(max_p))
 }
@@ -391,6 +416,32 @@ fn enclosure(c: &Case, base: u64, w: u64) -> Option<Ball> {
     }
 }
 
+/// exp of an argument too large for `enclosure` (|x| >= 2^20): exp(x) = B^s · exp(r) with the integer
+/// s ≈ x / ln B and r = x − s·ln B, both enclosed rigorously (ln B to w + bits(x) + 64 bits). Returns
+/// the enclosure of exp(r) and the result scaled by B^-s (an exact exponent shift in base B), so
+/// that every ulp-relative judgement carries over unchanged.
+fn scaled_exp_enclosure(c: &Case, base: u64, w: u64, got: &Sci) -> Option<(Ball, Sci)> {
+    if c.f != 0 {
+        return None;
+    }
+    let xs = c.x.sci(base);
+    let xbits = ((xs.floor_log() + 1) as f64 * (base as f64).log2()).ceil() as u64;
+    if xbits > 70 {
+        return None;
+    }
+    let ww = w + xbits + 64;
+    let x = Ball::from_sci(&xs, ww);
+    let lnb = ball::ln(&Ball::from_u64(base), ww)?;
+    let q = x.div(&lnb, 80)?;
+    let s_big: BigInt = if q.e >= 0 { &q.m << (q.e as usize) } else { &q.m >> ((-q.e) as usize) };
+    let s = num_traits::ToPrimitive::to_i64(&s_big)?;
+    let r = x.sub(&lnb.mul_int(&s_big, ww), ww);
+    let enc = ball::exp(&r, w);
+    let mut scaled = got.clone();
+    scaled.e = scaled.e.checked_sub(s)?;
+    Some((enc, scaled))
+}
+
 fn run<R: ModeTag, const B: Word>(c: &Case, ctx: &Ctx) -> Out {
     let mut out = Out::new();
     let base = B as u64;
@@ -562,13 +613,25 @@ fn run<R: ModeTag, const B: Word>(c: &Case, ctx: &Ctx) -> Out {
     let w0 = (p as f64 * lb).ceil() as u64 + 64 + extra.min(16000);
     let mut verdict = Tri::Unknown;
     let mut last_enc: Option<Ball> = None;
+    // the value that is compared with the enclosure: the result itself, or the result scaled by
+    // B^-s for exp of a huge argument
+    let mut judged = res.val.clone();
     for rung in 0..4 {
         let w = w0 << rung;
         let enc = match enclosure(c, base, w) {
             Some(e) => e,
-            None => break,
+            None => match scaled_exp_enclosure(c, base, w, &res.val) {
+                Some((e, v)) => {
+                    if rung == 0 {
+                        out.label("exp of an argument >= 2^20: judged as B^s·exp(r)");
+                    }
+                    judged = v;
+                    e
+                }
+                None => break,
+            },
         };
-        verdict = ball::within_ulps(&enc, &res.val, p, 1, 1);
+        verdict = ball::within_ulps(&enc, &judged, p, 1, 1);
         last_enc = Some(enc);
         if verdict != Tri::Unknown {
             out.label(match rung {
@@ -585,15 +648,15 @@ fn run<R: ModeTag, const B: Word>(c: &Case, ctx: &Ctx) -> Out {
         Tri::Unknown => out.inconclusive(describe("enclosure could not decide after 4 rungs")),
         Tri::No => {
             let enc = last_enc.unwrap();
-            let err = ball::err_ulps_f64(&enc, &res.val, p);
+            let err = ball::err_ulps_f64(&enc, &judged, p);
             // classification of the error magnitude by rigorous tests: >= 2 ulp? >= 4 ulp?
             // known class: directed modes, error below 2 units of the last place of the larger of
             // |true value| and |result| (below 4 at p <= 2)
             let emax = ball::floor_log_range(&enc, base).map(|v| v.1).unwrap_or(i64::MIN);
-            let er = if res.val.is_zero() { i64::MIN } else { res.val.floor_log() };
+            let er = if judged.is_zero() { i64::MIN } else { judged.floor_log() };
             let k = emax.max(er) - p as i64 + 1;
-            let lt2 = ball::within_abs(&enc, &res.val, k, 2, 1) == Tri::Yes;
-            let lt4 = ball::within_abs(&enc, &res.val, k, 4, 1) == Tri::Yes;
+            let lt2 = ball::within_abs(&enc, &judged, k, 2, 1) == Tri::Yes;
+            let lt4 = ball::within_abs(&enc, &judged, k, 4, 1) == Tri::Yes;
             let directed = !R::MODE.is_half();
             let msg = describe(&format!("error >= 1 ulp (about {err:.3} ulp of the true value's binade)"));
             if exp_arg_exceeds_guard(c, base) {
@@ -768,6 +831,11 @@ fn main() {
     ck.sub("highp_b3_Up", (100, 2_000), || case_strategy_with(3, high_precision(3)), run::<mode::Up, 3>);
     ck.sub("highp_b10_HalfAway", (100, 2_000), || case_strategy_with(10, high_precision(10)), run::<mode::HalfAway, 10>);
     ck.sub("highp_b16_Down", (100, 2_000), || case_strategy_with(16, high_precision(16)), run::<mode::Down, 16>);
+    ck.sub("exp_large_b10_HalfEven", (500, 10_000), || exp_large_case(10), run::<mode::HalfEven, 10>);
+    ck.sub("exp_large_b10_Zero", (300, 6_000), || exp_large_case(10), run::<mode::Zero, 10>);
+    ck.sub("exp_large_b3_HalfAway", (300, 6_000), || exp_large_case(3), run::<mode::HalfAway, 3>);
+    ck.sub("exp_large_b16_Up", (300, 6_000), || exp_large_case(16), run::<mode::Up, 16>);
+    ck.sub("exp_large_b2_HalfEven", (300, 6_000), || exp_large_case(2), run::<mode::HalfEven, 2>);
     ck.sub("long_powi_b10_HalfAway", (2_000, 50_000), || long_case(10), long_powi::<mode::HalfAway, 10>);
     ck.sub("long_powi_b2_Zero", (2_000, 50_000), || long_case(2), long_powi::<mode::Zero, 2>);
     ck.sub("long_powi_b3_Up", (1_000, 25_000), || long_case(3), long_powi::<mode::Up, 3>);
